@@ -416,6 +416,13 @@ pub fn check(ctx: &Ctx) -> i32 {
                 }
             }
         }
+        // (e) runs of consecutive Interrupted answers at one write position (a signal storm): the
+        // sink never fails, so whatever the length of the run the outcome is the fault-free one
+        for pos in 0..ncalls {
+            for run in [2usize, 3, 8, 33, 100, 300] {
+                scripts.push(Script { answers: (pos..pos + run).map(|k| (k, Ans::Interrupted)).collect(), budget: None });
+            }
+        }
         // full product of the menu over all calls for the tiny files
         if ncalls <= 8 && !big {
             let menu = [Ans::All, Ans::One, Ans::Half, Ans::Interrupted];
@@ -452,7 +459,7 @@ pub fn check(ctx: &Ctx) -> i32 {
         &tally,
         Meta {
             level: "fault_enumeration",
-            rule: format!("{nhist} representative histories (video-only with reordering, A/V, zero-frame, single-frame; fast start on/off; with/without metadata; 4 codecs, AAC and Opus) finished on a scripted sink. Enumerated per history: (a) failure at every write call x {{Ok(0), and every stable std::io::ErrorKind except Interrupted (39 kinds)}}; (b) every byte budget j (accept exactly j bytes, then fail) for every offset of the fault-free output; (c) every schedule with <= {max_dev} deviations from accept-all over {{1 byte, half, Interrupted}}, and every 1-deviation schedule followed by a failure at every later call; (d) the full product of {{all, 1 byte, half, Interrupted}} over all calls for files written in <= 8 calls; after the finish attempt every continuation of <= 2 calls from {{finish_in_place, write_video, write_audio, finish_in_place_with_stats, flush, finish, finish_with_stats}} (for single-answer scripts). A case is distinct by (result vector, bytes the sink accepted)."),
+            rule: format!("{nhist} representative histories (video-only with reordering, A/V, zero-frame, single-frame; fast start on/off; with/without metadata; 4 codecs, AAC and Opus) finished on a scripted sink. Enumerated per history: (a) failure at every write call x {{Ok(0), and every stable std::io::ErrorKind except Interrupted (39 kinds)}}; (b) every byte budget j (accept exactly j bytes, then fail) for every offset of the fault-free output; (c) every schedule with <= {max_dev} deviations from accept-all over {{1 byte, half, Interrupted}}, and every 1-deviation schedule followed by a failure at every later call; (e) at every write position a run of 2, 3, 8, 33, 100 or 300 consecutive Interrupted answers; (d) the full product of {{all, 1 byte, half, Interrupted}} over all calls for files written in <= 8 calls; after the finish attempt every continuation of <= 2 calls from {{finish_in_place, write_video, write_audio, finish_in_place_with_stats, flush, finish, finish_with_stats}} (for single-answer scripts). A case is distinct by (result vector, bytes the sink accepted)."),
             bound: format!("<= {max_dev} benign deviations; all single failure points; all byte offsets"),
             exhaustive: true,
             assumptions: vec!["a sink that answers Interrupted forever is excluded (write_all livelocks by contract)".into(), "Ok(0) on a non-empty buffer counts as a failure (write_all reports WriteZero)".into()],
